@@ -1,5 +1,5 @@
 """Tier A: in-process protocol simulators (real dora-runtime protocol code + shuttle)."""
-import json, os, sys, time, glob
+import json, os, subprocess, sys, time, glob
 from common import *
 
 
@@ -60,7 +60,7 @@ def run_tier_a(prop, harness, tier, quick_s, thorough_s, level_text, real, stub,
         cmds.append({"cmd": [binary, "--seed", str(s), "--from", str(w), "--stride", str(JOBS), "--count", "1000000000",
                              "--budget-ms", str(int(budget * 1000)), "--out", os.path.join(WORK, "%s-vio-%d.json" % (harness, w)),
                              "--hash-out", os.path.join(WORK, "%s-hash-%d.bin" % (harness, w))] + list(extra_args)})
-    res = parallel(cmds)
+    res = parallel(cmds, timeout=budget + 600)
     sums = []
     aborted = []
     for w, (rc, out, err) in enumerate(res):
@@ -117,7 +117,14 @@ def run_tier_a(prop, harness, tier, quick_s, thorough_s, level_text, real, stub,
             seen.add(v["class"])
             rp = save_replay(prop, v["file"])
             # confirm in a fresh process
-            p = run([binary, "--replay", rp])
+            try:
+                p = run([binary, "--replay", rp], timeout=600)
+            except subprocess.TimeoutExpired:
+                # the harness has its own watchdog (30 s without progress -> abort); this is
+                # only the last line of defence against a replay that never ends
+                class _P:
+                    returncode, stdout = -9, b""
+                p = _P()
             if p.returncode != 1 and not (p.returncode < 0):
                 harness_error("violation did not reproduce from its replay file %s (rc=%d): %s" % (rp, p.returncode, p.stdout.decode()[-500:]))
             key = "%s:%s" % (harness, v["class"])
